@@ -115,6 +115,15 @@ def neededLater (ids : List Nat) (rest : List TEv) : Bool :=
     | .es _ b => ids.any (fun x => b.contains x)
     | _ => false)
 
+/-- the requests dispatched later in the trace, in the order they are needed -/
+def laterNeeded (rc : RCfg) (rest : List TEv) : List (List Nat) :=
+  (rest.filterMap (fun e => match e with
+    | .ms _ _ req _ _ => some req
+    | .es _ b =>
+      if rc.cfg.batching then none
+      else (rc.sends.find? (fun p => !b.isEmpty && b.all (fun x => p.2.contains x))).map (·.2)
+    | _ => none)).eraseDups
+
 def startFlightLast (rs : RS) (call : Nat) : RS :=
   let f := rs.s.flights.length - 1
   { fireL rs (.expStart f) "export call" with callFlight := (call, f) :: rs.callFlight }
@@ -127,7 +136,11 @@ def handle (rc : RCfg) (rs : RS) (e : TEv) (rest : List TEv) : RS :=
   | .wshut => rs
   | .acc rid ids =>
     if rs.offered.contains rid || neededLater ids rest then rs
-    else if rc.cfg.persistent then { rs with deferred := rs.deferred ++ [ids], offered := rid :: rs.offered }
+    else if rc.cfg.persistent then
+      -- persistent queue, never dispatched (stays stored).  FIFO: every request that IS dispatched later was pushed before
+      -- this one, so those are enqueued first (in the order they will be needed), then this one, at its real position
+      let rs := (laterNeeded rc rest).foldl (fun (rs : RS) (r : List Nat) => ensureOffered rc rs r) rs
+      { fireL rs (.offer ids) "enqueue (never dispatched: stays stored)" with offered := rid :: rs.offered }
     else if rs.reqSeen then
       -- memory queue, accepted after the shutdown request and never dispatched: every consumer had left before the push
       let rs := exitAll (spawnAll (needPhase 2 rs))
@@ -150,7 +163,10 @@ def handle (rc : RCfg) (rs : RS) (e : TEv) (rest : List TEv) : RS :=
     let kp := if keep then res.getLast? else none
     fireL rs (.consume 0 flush kp) "Consume"
   | .es call ids =>
-    match rs.s.flights.findIdx? (fun fl => same fl.batch ids && (fl.st == .backoff || fl.st == .pending)) with
+    -- a retry carries the flight's batch or, after a partial failure (`Request.OnError`), a non-empty sub-list of it
+    match rs.s.flights.findIdx? (fun fl =>
+        (fl.st == .pending && same fl.batch ids) ||
+        (fl.st == .backoff && !ids.isEmpty && ids.all (fun x => fl.batch.contains x))) with
     | some f => { fireL rs (.expStart f) "export call" with callFlight := (call, f) :: rs.callFlight }
     | none =>
       if rc.cfg.batching then
@@ -189,7 +205,7 @@ def handle (rc : RCfg) (rs : RS) (e : TEv) (rest : List TEv) : RS :=
       else if perm then fireL rs (.expEnd f .perm .drop) "call failed permanently"
       else
         let batch := (rs.s.flights[f]?.map (·.batch)).getD []
-        let retried := rest.any (fun e => match e with | .es _ b => same b batch | _ => false)
+        let retried := rest.any (fun e => match e with | .es _ b => !b.isEmpty && b.all (fun x => batch.contains x) | _ => false)
         if rc.cfg.retry && retried then fireL rs (.expEnd f .trans .again) "retry scheduled"
         else if rc.cfg.persistent && rc.cfg.retry && left && batch.all (fun x => rc.stored.contains x) then
           if rs.reqSeen then fireL (needPhase 1 rs) (.expEnd f .trans .keep) "interrupted by the shutdown"
@@ -216,6 +232,12 @@ def goUntilShutreq (rc : RCfg) : RS → List TEv → RS
   | rs, [] => rs
   | rs, .shutreq :: _ => rs
   | rs, e :: rest => goUntilShutreq rc (handle rc rs e rest) rest
+
+/-- replay only the first `n` events; the look-ahead still sees the whole trace -/
+def goN (rc : RCfg) : Nat → RS → List TEv → RS
+  | 0, rs, _ => rs
+  | _, rs, [] => rs
+  | n + 1, rs, e :: rest => goN rc n (handle rc rs e rest) rest
 
 def replay (rc : RCfg) (t : List TEv) : RS :=
   let rs := go rc { s := init rc.cfg rc.nCons rc.workers rc.timer } t
